@@ -34,7 +34,8 @@ SOURCES = [
     "(corpus example /repo/iodata/test/data/al_fcc.xyz)",
 ]
 CLASSES = ["minimal", "lattice_pbc", "z_column", "species_and_z", "dtypes_1col", "dtypes_3col", "masses_charges_force",
-           "forces_plural", "info_scalars", "info_arrays", "quoted_string_spaces", "short_strings", "alt_quotes", "trajectory"]
+           "forces_plural", "info_scalars", "info_arrays", "quoted_string_spaces", "short_strings", "alt_quotes", "trajectory",
+           "trajectory_mixed_columns"]
 
 NDEC = 8
 LABELS = ["alpha", "beta", "c1", "dz2", "x-y", "core", "shell", "ghost"]
@@ -133,6 +134,17 @@ def generate(rng, klass):
             ec = [_extra_col(rng, n, "force", "R", 3)] if k % 2 == 0 else [_extra_col(rng, n, "fragment_ids", "I", 1)]
             fr.append(_frame(rng, n, lattice=bool(k % 2), extra_cols=ec,
                              info=[("energy", "real", round(float(rng.uniform(-500, 0)), NDEC), None), ("frame", "int", k, None)]))
+    elif klass == "trajectory_mixed_columns":
+        # every frame declares its own Properties: the element column is species, Z, or both, the extra columns and the number
+        # of atoms change from frame to frame (concatenated outputs of different tools)
+        fr = []
+        kinds = ["species", "both", "Z", "species", "both"]
+        start = int(rng.integers(len(kinds)))
+        for k in range(int(rng.integers(3, 7))):
+            nk = int(rng.integers(1, 8))
+            ec = [[_extra_col(rng, nk, "force", "R", 3)], [_extra_col(rng, nk, "fragment_ids", "I", 1)], []][k % 3]
+            fr.append(_frame(rng, nk, element=kinds[(start + k) % len(kinds)], lattice=bool(k % 2), extra_cols=ec,
+                             info=[("frame", "int", k, None)]))
     else:
         raise ValueError(klass)
     return {"frames": fr, "features": [klass, f"nframe={len(fr)}", "props=" + _properties(fr[0]), f"lattice={fr[0]['lattice'] is not None}"]}
